@@ -12,6 +12,7 @@ import (
 	"strconv"
 	"strings"
 	"sync"
+	"sync/atomic"
 	"time"
 )
 
@@ -173,6 +174,7 @@ func cmdCheck(args []string) {
 	cfg := &SolverCfg{WorkDir: work, Quick: 3 * time.Second, Full: 20 * time.Second, Parallel: 16}
 	if *tier == "thorough" {
 		cfg.Quick = 10 * time.Second
+		cfg.AllAgree = true
 		cfg.Full = 60 * time.Second
 	}
 	maxPaths := pc.MaxPaths
@@ -506,6 +508,7 @@ func cmdCheck(args []string) {
 			"obligation_list":          oblReports,
 			"solver_time_s":            float64(solverMs) / 1000.0,
 			"subgoals_by_back_end":     solverCount,
+			"cross_check":              map[string]interface{}{"enabled": cfg.AllAgree, "second_opinions_asked": atomic.LoadInt64(&crossAsked), "confirmed_unsat": atomic.LoadInt64(&crossConfirmed), "note": "thorough tier: every ground query that z3 5.1 answers unsat is also given to cvc5 and z3 4.8.12 (10 s each); a sat answer fails the obligation, timeouts are tolerated"},
 			"build_variants":           variantsRun,
 			"source_sha256":            srcMap,
 			"bounded":                  boundedReports,
